@@ -553,6 +553,48 @@ class Splicer:
                         self.sub(s[n], x + 1, new, "R13")
                         g.meta["r13_r14"].append({"fn": key, "rule": "R13", "before": before, "after": new})
                 n += 1
+        # R13 (match arms): `Some(&[mut] (P1, P2)) => E,` with Pi in {_, ref x, ref mut x}
+        #   ->  `Some(__t) => { let x = &[mut] __t.i; ... E },`   (the Reference's binding-mode semantics)
+        if "R13" in fs.rules:
+            s = [k for k in range(body_lo, body_hi) if toks[k].kind not in ("ws", "comment", "doc")]
+            n = 0
+            while n < len(s) - 6:
+                tx = [toks[s[n + d]].text for d in range(5)]
+                if tx[0] == "Some" and tx[1] == "(" and tx[2] == "&":
+                    off = 4 if tx[3] == "mut" else 3
+                    if toks[s[n + off]].text == "(":
+                        inner_close = rs.match_close(toks, s[n + off])
+                        outer_close = rs.match_close(toks, s[n + 1])
+                        parts = rs.norm(toks, s[n + off] + 1, inner_close).split(" , ")
+                        ok = all(re.match(r"^(_|ref (mut )?[a-z_0-9]+)$", p_) for p_ in parts)
+                        after = [x for x in s if x > outer_close]
+                        if ok and after and toks[after[0]].text == "=>":
+                            # arm expression: up to the `,` at depth 0 (or a block)
+                            a0 = after[1]
+                            depth, x = 0, a0
+                            while True:
+                                tt = toks[x]
+                                if tt.kind == "punct":
+                                    if tt.text in rs.OPEN:
+                                        depth += 1
+                                    elif tt.text in rs.CLOSE:
+                                        if depth == 0:
+                                            break
+                                        depth -= 1
+                                    elif tt.text == "," and depth == 0:
+                                        break
+                                x += 1
+                            lets = ""
+                            for i_, p_ in enumerate(parts):
+                                m_ = re.match(r"^ref (mut )?([a-z_0-9]+)$", p_)
+                                if m_:
+                                    lets += "let %s = &%s__t.%d; " % (m_.group(2), m_.group(1) or "", i_)
+                            before = rs.text_of(toks, s[n], x)
+                            expr = rs.text_of(toks, a0, x).rstrip()
+                            new = "Some(__t) => { %s%s }" % (lets, expr)
+                            self.sub(s[n], x, new, "R13")
+                            g.meta["r13_r14"].append({"fn": key, "rule": "R13", "before": before, "after": new})
+                n += 1
         # ghost statements
         for gh in fs.ghosts:
             pos = find_anchor(toks, body_lo + 1, body_hi, gh.anchor)
